@@ -18,14 +18,17 @@ pub enum Case {
     /// sum of three container values of kinds (k0, k1, k2) whose real parts are taken from a table where float
     /// addition is not associative; must equal the left fold from zero, bit for bit
     Sum3 { vals: [u8; 3], kinds: [u8; 3] },
+    /// n first-order numbers with ONE second-order number at position `dual2_at`: the sum must be refused
+    LongMixedSum { n: usize, dual2_at: usize },
     /// history: a sequence of float raisings (request list index, target order), EVERY earlier result kept
     /// alive, each result judged on its own (distinct requested names in first-appearance order, unit
     /// gradient, zero Hessian, value unchanged)
     RaiseHistory { steps: Vec<(u8, u8)>, clone_form: bool },
 }
 
-/// request lists of the raising history, over the names c, d (index 2, 3), with repeated names
-const RAISE_REQ: [&[usize]; 7] = [&[2], &[2, 3], &[3, 2], &[2, 2], &[3, 3, 2], &[2, 3, 2], &[]];
+/// request lists of the raising history, with repeated names
+/// (the last five are lists whose names run together to the same text as another list's: "c"+"dd" = "cd"+"d", ...)
+const RAISE_REQ: [&[&str]; 12] = [&["c"], &["c", "d"], &["d", "c"], &["c", "c"], &["d", "d", "c"], &["c", "d", "c"], &[], &["cd"], &["c", "dd"], &["cd", "d"], &["x1", "0"], &["x", "10"]];
 
 fn uni() -> Vec<String> {
     universe(4) // a b c d ; "c","d" are used as requested tag names
@@ -101,6 +104,12 @@ fn cases(tier: Tier) -> Vec<Case> {
                     out.push(Case::Sum3 { vals: [v0, v1, v2], kinds });
                 }
             }
+        }
+    }
+    // long sums (the refusal of mixed orders must not depend on the length)
+    for n in [1023usize, 1024, 1025, 1100] {
+        for pos in [0usize, 1, n / 2, n - 1] {
+            out.push(Case::LongMixedSum { n, dual2_at: pos });
         }
     }
     // raising histories: every sequence of length 1..3 over 7 request lists x 2 target orders, both forms
@@ -559,12 +568,31 @@ pub fn check(case: &Case, idx: u64, acc: &mut Acc) {
                 (g, w, false) => acc.violate("sum3/panic", idx, cj(), json!(format!("{:?}", w.is_ok())), json!(format!("{:?}", g.is_ok()))),
             }
         }
+        Case::LongMixedSum { n, dual2_at } => {
+            acc.eval();
+            acc.nontrivial();
+            let items: Vec<Number> = (0..*n)
+                .map(|i| {
+                    if i == *dual2_at {
+                        Number::Dual2(Dual2::try_new(0.5, vec![u[0].clone()], vec![1.0], vec![0.25]).unwrap())
+                    } else if i % 3 == 2 {
+                        Number::F64(0.125)
+                    } else {
+                        Number::Dual(Dual::try_new(0.25 + i as f64, vec![u[i % 2].clone()], vec![2.0]).unwrap())
+                    }
+                })
+                .collect();
+            match guarded(|| items.into_iter().sum::<Number>()) {
+                Ok(v) => acc.violate("mixed/long-sum", idx, cj(), json!("refusal"), json!(format!("a {} value", ["float", "first-order", "second-order"][kind_of(&v) as usize]))),
+                Err(_) => acc.bump("refusals observed"),
+            }
+        }
         Case::RaiseHistory { steps, clone_form } => {
             let mut alive: Vec<Number> = vec![];
             acc.nontrivial();
             for (si, (ri, target)) in steps.iter().enumerate() {
                 acc.eval();
-                let req: Vec<String> = RAISE_REQ[*ri as usize].iter().map(|i| u[*i].clone()).collect();
+                let req: Vec<String> = RAISE_REQ[*ri as usize].iter().map(|n| n.to_string()).collect();
                 let mut distinct: Vec<String> = vec![];
                 for r in req.iter() {
                     if !distinct.contains(r) {
@@ -674,7 +702,7 @@ pub fn run(ctx: &Ctx, replay_file: Option<String>) -> ! {
          (kind, target-order) cells of set_order / set_order_clone with tag lists of length 0-2, every From conversion \
          (owned and borrowed) between f64, Dual, Dual2 and Number; every binary operator of the container (+ - * / %, \
          ==, partial_cmp, abs_sub, Sum; borrowed and owned forms; Number-f64 and f64-Number forms) on all 3x3 kind \
-         pairings of every ordered pair of numbers; every unary operator/function; == between the container and a bare float in both orders; sums of three container values over a 7-value table where float addition is not associative (1e16, -1e16, 1, 0.1, 0.2, 0.3, 1e308) x every kind triple against the left fold from zero; EVERY sequence of 1..3 float raisings over 7 request lists (repeated names included) x 2 target orders with all earlier results kept alive. Oracle: the reference content by \
+         pairings of every ordered pair of numbers; every unary operator/function; == between the container and a bare float in both orders; sums of 1023 .. 1100 first-order numbers with one second-order number among them (must be refused); sums of three container values over a 7-value table where float addition is not associative (1e16, -1e16, 1, 0.1, 0.2, 0.3, 1e308) x every kind triple against the left fold from zero; EVERY sequence of 1..3 float raisings over 12 request lists (repeated names, and names that run together to the same text, included) x 2 target orders with all earlier results kept alive. Oracle: the reference content by \
          name for order changes; for arithmetic, bit-exact agreement (kind, value, every derivative by name) with the \
          same operator applied to the contained types; the two Dual/Dual2 arms must not return a value. Non-trivial: \
          order changes between different kinds, pairings of different kinds, unary ops on dual kinds.",
